@@ -169,3 +169,60 @@ def eval_cond(test, env):
     if isinstance(test, (ast.Tuple, ast.List, ast.Set)):
         return [eval_cond(e, env) for e in test.elts]
     raise CondUnknown(txt)
+
+
+def kleene(t, truth):
+    """Three-valued value (True / False / None = unknown) of a condition
+    term when only some of its atoms are known.  ``truth(atom)`` returns
+    True / False / None for an atom; comparisons are offered to ``truth``
+    in the orientation-free normal form of ``norm_cmp`` (as holding) as
+    well as verbatim.  not / and / or follow Kleene's strong logic, so
+    ``A or B`` is True as soon as A is known to be True."""
+    k = t[0]
+    if k == "un" and t[1] == "not":
+        v = kleene(t[2], truth)
+        return None if v is None else (not v)
+    if k == "bool":
+        vals = [kleene(x, truth) for x in t[2]]
+        if t[1] == "and":
+            if any(v is False for v in vals):
+                return False
+            return True if all(v is True for v in vals) else None
+        if any(v is True for v in vals):
+            return True
+        return False if all(v is False for v in vals) else None
+    if k == "ifexp":
+        c = kleene(t[1], truth)
+        if c is None:
+            a, b = kleene(t[2], truth), kleene(t[3], truth)
+            return a if a == b else None
+        return kleene(t[2] if c else t[3], truth)
+    v = truth(t)
+    if v is not None:
+        return v
+    if k == "cmp":
+        n = norm_cmp(t, True)
+        if n is not None:
+            v = truth(n)
+            if v is not None:
+                return v
+            neg = norm_cmp(t, False)
+            v = truth(neg) if neg is not None else None
+            if v is not None:
+                return not v
+    if k == "const":
+        return bool(t[1])
+    return None
+
+
+def forced_by(cfg, T, node, reference, truth):
+    """Is ``node`` (a return / raise ...) necessarily reached, instead of
+    ``reference``, once the atoms known to ``truth`` hold?  The conditions
+    the two statements share are set aside; every remaining necessary
+    condition of ``node`` must evaluate (three-valued) to its required
+    outcome."""
+    from .defuse import key as _k
+    ref = {(_k(t), o) for t, o in cond_terms(cfg, T, reference)}
+    rest = [(t, o) for t, o in cond_terms(cfg, T, node)
+            if (_k(t), o) not in ref]
+    return bool(rest) and all(kleene(t, truth) is o for t, o in rest)
